@@ -92,7 +92,7 @@ def generate(seed, tier, k):
     if mode == "condensed" and r.random() < 0.3:
         doc["faults"].append({"kind": "solver_inexact", "rel": r.choice([1e-10, 1e-6, 1e-4]), "seed": r.randrange(1000)})
     doc["c10"] = {"mode": mode, "restart": mode == "condensed" and r.random() < 0.4, "probe_seed": r.randrange(1 << 30), "unrelated_dual": r.choice([None, None, False, True])}
-    return doc
+    return gen.maybe_units(doc)
 
 
 def run_history(doc, log, monitors=()):
